@@ -1,7 +1,6 @@
 import GorumsV.Props.C09
 import GorumsV.Generated.Exprs
 import GorumsV.Lemmas.GoETac
-import GorumsV.Model.LockOrder
 /-!
   Tie for C09: the two decisions of the connection management that the LTS `ConnMgr` takes as
   given are regenerated from channel.go — `isConnected` (both flags, in `sEval`) and the give-up
@@ -51,31 +50,6 @@ theorem replacement_good :
   decide
 
 
-/-! ### lock order and blocking operations under locks, from the regenerated table (gx lock-set walk) -/
-
-def blockRows : List LockOrder.Row := Generated.blockTable.map fun r => ⟨r.fn, r.kind, r.arg, r.locks, r.modes⟩
-/-- the client runtime (the server's handler mutex is a hand-over signal between goroutines, modelled in `SrvConn`) -/
-def clientRows : List LockOrder.Row := blockRows.filter (fun r => r.fn != "orderingServer.NodeStream")
-
-/-- the lock order of the client runtime is exactly: `responseMut` and the channel's `mu` are taken under `streamMut`
-    (reconnect → cancelPendingMsgs; sendMsg → markWritten / setLastErr) and nothing else nests — as in `ConnMgr`, where
-    `responseMut` is requested under the write lock by `replaceStream` and under the read lock by `markWritten` -/
-theorem lockOrder_good : LockOrder.edges clientRows 3 = [("streamMut", "responseMut"), ("streamMut", "mu:channel")] := by
-  decide +kernel
-/-- … calls deeper than three levels add nothing -/
-theorem lockOrder_depth : LockOrder.edges clientRows 5 = LockOrder.edges clientRows 3 := by decide +kernel
-/-- … and it has no cycle: no deadlock among the critical sections themselves; what remains are blocking operations
-    inside critical sections -/
-theorem lockOrder_acyclic : LockOrder.acyclic (LockOrder.edges clientRows 3) 8 = true := by decide +kernel
-
-/-- **every place where the tree can block while it holds a lock is a step of the models** (`ConnMgr`, `NodeConn`,
-    `SrvConn`): the wedge analysis of C09 (`wedge_shapes`) is complete with respect to the code's blocking sites -/
-theorem blocking_sites_modelled :
-    ∀ s ∈ LockOrder.blockingUnderLock blockRows, s ∈ LockOrder.modelledSites.map (·.1) := by decide +kernel
-/-- … and every modelled site is still in the tree (no stale entry) -/
-theorem modelled_sites_exist :
-    ∀ s ∈ LockOrder.modelledSites.map (·.1), s.2.1 = "lock" ∨ s ∈ LockOrder.blockingUnderLock blockRows := by decide +kernel
-
 end GorumsV.Tie.C09
 
 section Audit
@@ -84,11 +58,6 @@ open GorumsV.Tie.C09 GorumsV.C09
 #print axioms giveUp_good
 #print axioms giveUp_sender
 #print axioms giveUp_receiver
-#print axioms lockOrder_good
-#print axioms lockOrder_depth
-#print axioms lockOrder_acyclic
-#print axioms blocking_sites_modelled
-#print axioms modelled_sites_exist
 #print axioms inv_init
 #print axioms inv_step
 #print axioms inv_reachable
